@@ -1062,3 +1062,106 @@ def frame_unbounded_code(R):
                 ("exit.leb-precondition", z3.And(*stub.requires))]
 
     verify(R, "C19.frame.unbounded.Code", FN, run_exit, replay, label="loop-cut")
+
+
+# ---------------------------------------------------------------------------------------------------------------------------------
+# C19.writers.frame: the writers write to their output and to nothing else -- what an instruction, a section or a code body encodes to does not
+# depend on what the process has written before.
+
+_MUTATORS = {"append", "extend", "insert", "pop", "remove", "clear", "update", "setdefault", "add", "discard", "sort", "reverse", "popitem", "__setitem__", "__delitem__", "appendleft"}
+
+HISTORY_REPLAY = """
+import io, nsl.WebAssembly as W
+{{dec}}
+bad = []
+vals = [0, 1, 63, 64, 65, 70, 127, 128, 8191, 8192, 16383, 16384, 2 ** 20, 2 ** 27, 2 ** 31 - 1]
+def enc(op, v):
+    o = io.BytesIO(); W.Instruction(W.opcodes[op], (v,)).WriteTo(o); return o.getvalue()
+for first, second in (("local.get", "i32.const"), ("i32.const", "local.get"), ("local.set", "i32.const")):
+    for v in vals:
+        enc(first, v)
+        b = enc(second, v)
+        got = (sdec if second == "i32.const" else udec)(b, 1)[0]
+        if got != v: bad.append((first, second, v, b.hex(), got))
+print('(written before, instruction, immediate, bytes, decodes to):', bad[:6])
+if bad: print('REPLAY-CONFIRMED')
+"""
+
+
+@family("C19.writers.frame", props=["C19", "C07"], functions=[W + "::Instruction.WriteTo", W + "::PackInteger", W + "::PackSignedInteger", W + "::WriteInteger", W + "::WriteSignedInteger", W + "::WriteString", W + "::Code.Encode"],
+        assumptions=["syntactic frame condition, decided on the source of every Pack* / Write* function and every WriteTo / Encode method of nsl.WebAssembly on every run: no store to an attribute or an element of, "
+                     "and no mutating method call (append, update, setdefault, ...) on, anything but objects the function itself created (locals bound to a call or a literal); `output.write` is the one permitted effect. "
+                     "Locals that alias existing state (bound to a name, an attribute or an element) count as that state",
+                     "Local.SetCount and the Add* methods are builders, not writers: outside this obligation"])
+def writers_frame(R):
+    """Every writer's result is a function of its arguments and the object it encodes: it updates no object-, class- or module-level state, so an
+    immediate, a size field or a name encodes the same way whatever was written before in the process (the symbolic obligations C19.leb.* and
+    C19.frame.* run each writer in a fresh state)."""
+    import ast as pyast, inspect, textwrap
+    m = _mod()
+    targets = {}
+    for name, obj in vars(m).items():
+        if inspect.isfunction(obj) and obj.__module__ == m.__name__ and (name.startswith("Pack") or name.startswith("Write")):
+            targets[name] = obj
+        elif inspect.isclass(obj) and obj.__module__ == m.__name__:
+            for mn in ("WriteTo", "Encode"):
+                f = obj.__dict__.get(mn)
+                if inspect.isfunction(f):
+                    targets[f"{name}.{mn}"] = f
+    rp = dict(script=HISTORY_REPLAY.replace("{{dec}}", leb.PY_DECODERS))
+    for qual, fn in sorted(targets.items()):
+        try:
+            fd = pyast.parse(textwrap.dedent(inspect.getsource(fn)).lstrip("﻿")).body[0]
+        except (OSError, SyntaxError) as e:
+            R.undecided(f"C19.writers.frame[{qual}]", W + "::" + qual, f"no source: {e}")
+            continue
+        params = {a.arg for a in fd.args.args + fd.args.kwonlyargs}
+        fresh, tainted = set(), set()
+        for node in pyast.walk(fd):
+            tg = []
+            if isinstance(node, pyast.Assign):
+                tg = [(t, node.value) for t in node.targets]
+            elif isinstance(node, pyast.AnnAssign) and node.value is not None:
+                tg = [(node.target, node.value)]
+            elif isinstance(node, (pyast.For, pyast.comprehension)):
+                tg = [(node.target, None)]
+            elif isinstance(node, pyast.withitem) and node.optional_vars is not None:
+                tg = [(node.optional_vars, node.context_expr)]
+            for t, v in tg:
+                for nm in ([t] if isinstance(t, pyast.Name) else [e for e in pyast.walk(t) if isinstance(e, pyast.Name)] if isinstance(t, (pyast.Tuple, pyast.List)) else []):
+                    if v is not None and isinstance(v, (pyast.Call, pyast.List, pyast.Dict, pyast.Set, pyast.Constant, pyast.Tuple, pyast.ListComp, pyast.DictComp, pyast.SetComp, pyast.BinOp, pyast.JoinedStr, pyast.Compare, pyast.UnaryOp)):
+                        fresh.add(nm.id)
+                    else:
+                        tainted.add(nm.id)       # bound to existing state (a name, attribute, element, loop element)
+        own = (fresh - tainted) - params
+
+        def root(node):
+            while isinstance(node, (pyast.Attribute, pyast.Subscript)):
+                node = node.value
+            return node.id if isinstance(node, pyast.Name) else None
+
+        problems = []
+        for node in pyast.walk(fd):
+            stores = []
+            if isinstance(node, pyast.Assign):
+                stores = node.targets
+            elif isinstance(node, (pyast.AugAssign, pyast.AnnAssign)):
+                stores = [node.target]
+            elif isinstance(node, pyast.Delete):
+                stores = node.targets
+            for t in stores:
+                for e in ([t] if not isinstance(t, (pyast.Tuple, pyast.List)) else t.elts):
+                    if isinstance(e, (pyast.Attribute, pyast.Subscript)) and root(e) not in own:
+                        problems.append(f"line {e.lineno}: stores to {pyast.unparse(e)}")
+            if isinstance(node, (pyast.Global, pyast.Nonlocal)):
+                problems.append(f"line {node.lineno}: {pyast.unparse(node)}")
+            if isinstance(node, pyast.Call) and isinstance(node.func, pyast.Attribute) and node.func.attr in _MUTATORS and root(node.func.value) not in own:
+                problems.append(f"line {node.lineno}: {pyast.unparse(node.func)}(...) updates state the function did not create")
+            if isinstance(node, pyast.Call) and isinstance(node.func, pyast.Name) and node.func.id in ("setattr", "delattr"):
+                problems.append(f"line {node.lineno}: {node.func.id}(...)")
+        oid = f"C19.writers.frame[{qual}]"
+        if problems:
+            R.fail(oid, W + "::" + qual, "; ".join(problems), replay=rp, backend="frame-check")
+        else:
+            R.ok(oid, W + "::" + qual, "frame-check", detail="writes only to its output and to objects it created")
+    R.check("C19.writers.frame.writers-found", W, len(targets) >= 12, detail=f"{len(targets)} writers")
